@@ -373,6 +373,7 @@ class CuckooFilter:
         # and move things around to the other index, if possible, until we
         # either move everything around or hit the maximum number of swaps
         idx = random.choice([idx_1, idx_2])
+        swaps = []
 
         for _ in range(self.max_swaps):
             # select one element to be swapped out...
@@ -380,6 +381,7 @@ class CuckooFilter:
 
             swb = self.buckets[idx][swap_elm]
             fingerprint, self.buckets[idx][swap_elm] = swb, fingerprint
+            swaps.append((idx, swap_elm))
 
             # now find another place to put this fingerprint
             index_1, index_2 = self._indicies_from_fingerprint(fingerprint)
@@ -390,7 +392,10 @@ class CuckooFilter:
                 self._inserted_elements += 1
                 return None
 
-        # if we got here we have an error... we might need to know what is left
+        # if we got here we have an error... put the kicked out elements back so
+        # that nothing already stored is lost; what is left is the new fingerprint
+        for idx, swap_elm in reversed(swaps):
+            fingerprint, self.buckets[idx][swap_elm] = self.buckets[idx][swap_elm], fingerprint
         return fingerprint
 
     def _load(self, file: Union[Path, str, IOBase, mmap, bytes]) -> None:
